@@ -325,6 +325,14 @@ impl InterfaceInner {
                 // the link local source and destination address...
 
                 let pkt = frag;
+                if !pkt.finished() {
+                    net_debug!(
+                        "dispatch_ieee802154: dropping, \
+                        fragmentation buffer is still in use"
+                    );
+                    return;
+                }
+
                 if pkt.buffer.len() < total_size {
                     net_debug!(
                         "dispatch_ieee802154: dropping, \
